@@ -25,6 +25,11 @@ from standins import oracle as O
 REL = 'kingdon/codegen.py'
 
 
+def _ob(ctx, name, goal, meta=None):
+    """obligations of this module are decided by exact normalisation of polynomials (kind 'poly' in the evidence)"""
+    ctx.oblige(name, goal, 'poly', meta)
+
+
 class Frac(tuple):
     """codegen.Fraction(numer, denom): a 2-tuple (NamedTuple in the real module)"""
 
@@ -336,7 +341,7 @@ def _hitzer_one(H, fuc, d, sig):
                 world, x = _generic(d, sig)
                 r = H.closure(Interp(ctx, source_name=REL), fuc, {'Fraction': Frac})(x, symbolic=True)
                 ok = isinstance(r, Frac) and isinstance(r[0], RefMV) and isinstance(r[1], IP)
-                ctx.oblige('symbolic=True returns Fraction(num, denom): a multivector and a scalar coefficient', bool(ok), meta={'got': repr(r)[:200]})
+                _ob(ctx, 'symbolic=True returns Fraction(num, denom): a multivector and a scalar coefficient', bool(ok), meta={'got': repr(r)[:200]})
                 if not ok:
                     return r
                 num, denom = r[0], r[1]
@@ -346,18 +351,18 @@ def _hitzer_one(H, fuc, d, sig):
                     N = num.comp
                     left = _gp(X, N, sigv)
                     right = _gp(N, X, sigv)
-                    ctx.oblige('x * num == denom (a scalar): polynomial identity in the coefficients of a generic x',
+                    _ob(ctx, 'x * num == denom (a scalar): polynomial identity in the coefficients of a generic x',
                                set(left) <= {0} and left.get(0, IP()) == denom, meta={'non_scalar_blades': sorted(set(left) - {0})[:8]})
-                    ctx.oblige('num * x == denom: the inverse is two-sided', set(right) <= {0} and right.get(0, IP()) == denom,
+                    _ob(ctx, 'num * x == denom: the inverse is two-sided', set(right) <= {0} and right.get(0, IP()) == denom,
                                meta={'non_scalar_blades': sorted(set(right) - {0})[:8]})
                 else:
                     A, B = num.lazy
                     xa = _gp(X, A.comp, sigv)
                     full = _gp(xa, B.comp, sigv)
-                    ctx.oblige('x * num == denom (a scalar), with num = A * B kept lazy and x * (A * B) == (x * A) * B by L-assoc',
+                    _ob(ctx, 'x * num == denom (a scalar), with num = A * B kept lazy and x * (A * B) == (x * A) * B by L-assoc',
                                set(full) <= {0} and full.get(0, IP()) == denom, meta={'non_scalar_blades': sorted(set(full) - {0})[:8]})
                     ctx.notes.append('two-sidedness for d = 5 by: a right inverse in a finite-dimensional associative unital algebra is a left inverse')
-                ctx.oblige('denom is not the zero polynomial (the formula is not vacuous)', bool(denom))
+                _ob(ctx, 'denom is not the zero polynomial (the formula is not vacuous)', bool(denom))
                 return r
             H.run_paths(fuc, f'd={d},signature={sig}', body)
 
@@ -390,7 +395,7 @@ def vc_inv_patterns(H, tier='quick'):
                     left, right = _gp(y.comp, num, sig), _gp(num, y.comp, sig)
                     if not (set(left) <= {0} and left.get(0, IP()) == denom and set(right) <= {0} and right.get(0, IP()) == denom):
                         bad.append(G)
-                ctx.oblige(f'operands restricted to any set of grades ({n} patterns): y * num == num * y == denom as polynomial identities',
+                _ob(ctx, f'operands restricted to any set of grades ({n} patterns): y * num == num * y == denom as polynomial identities',
                            not bad, meta={'failing_grade_sets': bad[:6]})
             H.run_paths(fuc, f'patterns,d={d},signature={sig}', body)
 
@@ -442,7 +447,7 @@ def vc_compositions_generic(H, tier='quick'):
                             bad = sorted(k for k in set(got) | set(want) if not (got.get(k, IP()) == want.get(k, IP())))
                             if bad:
                                 failing.append((xn, yn, bad[:4]))
-                    ctx.oblige(f'codegen_{name} on generic operands (x: generic / even / odd; y: generic / each single grade) == {spec}: every '
+                    _ob(ctx, f'codegen_{name} on generic operands (x: generic / even / odd; y: generic / each single grade) == {spec}: every '
                                'coefficient is the same polynomial (no blade dropped unless identically zero)',
                                not failing, meta={'failing_shapes': failing[:6]})
                 H.run_paths(fuc, f'generic,d={d},signature={sig}', body)
@@ -461,7 +466,7 @@ class _Chains:
     def __getitem__(self, n):
         ch = self.chains[n]
         ok = ch[0] == 1 and ch[-1] == n and all(any(ch[i] == ch[a] + ch[b] for a in range(i) for b in range(i)) for i in range(1, len(ch)))
-        self.ctx.oblige(f'AdditionChains[{n}] is an addition chain ending in {n}', bool(ok), meta={'chain': repr(ch)})
+        _ob(self.ctx, f'AdditionChains[{n}] is an addition chain ending in {n}', bool(ok), meta={'chain': repr(ch)})
         return ch
 
 
@@ -481,15 +486,15 @@ def vc_shirokov_small(H, tier='quick'):
                 env = {'Fraction': Frac, 'AdditionChains': lambda limit: _Chains(H, ctx, limit)}
                 r = H.closure(Interp(ctx, source_name=REL), fuc, env)(x, symbolic=True)
                 ok = isinstance(r, Frac) and isinstance(r[0], RefMV) and isinstance(r[1], IP) and r[0].lazy is None
-                ctx.oblige('symbolic=True returns Fraction(adjugate, denom)', bool(ok), meta={'got': repr(r)[:200]})
+                _ob(ctx, 'symbolic=True returns Fraction(adjugate, denom)', bool(ok), meta={'got': repr(r)[:200]})
                 if not ok:
                     return r
                 adj, denom = r[0].comp, r[1]
                 left, right = _gp(x.comp, adj, sig), _gp(adj, x.comp, sig)
-                ctx.oblige('x * adj == denom (a scalar): polynomial identity over Q in the coefficients of a generic x',
+                _ob(ctx, 'x * adj == denom (a scalar): polynomial identity over Q in the coefficients of a generic x',
                            set(left) <= {0} and left.get(0, IP()) == denom, meta={'non_scalar_blades': sorted(set(left) - {0})[:8]})
-                ctx.oblige('adj * x == denom', set(right) <= {0} and right.get(0, IP()) == denom)
-                ctx.oblige('denom is not the zero polynomial', bool(denom))
+                _ob(ctx, 'adj * x == denom', set(right) <= {0} and right.get(0, IP()) == denom)
+                _ob(ctx, 'denom is not the zero polynomial', bool(denom))
                 return r
             H.run_paths(fuc, f'd={d},signature={sig}', body)
 
@@ -506,14 +511,14 @@ def vc_div_generic(H, tier='quick'):
                 x = RefMV(world, {k: IP.var(N + k) for k in range(N)})
                 r = H.closure(Interp(ctx, source_name=REL), fuc, {'Fraction': Frac})(y, x, symbolic=True)
                 ok = isinstance(r, Frac) and isinstance(r[0], RefMV) and isinstance(r[1], IP) and r[0].lazy is None
-                ctx.oblige('codegen_inv(y, x, symbolic=True) returns Fraction(x * num, denom)', bool(ok))
+                _ob(ctx, 'codegen_inv(y, x, symbolic=True) returns Fraction(x * num, denom)', bool(ok))
                 if not ok:
                     return r
                 q, denom = r[0].comp, r[1]
                 back = _gp(q, y.comp, sig)
                 want = {k: v * denom for k, v in x.comp.items()}
                 bad = sorted(k for k in set(back) | set(want) if not (back.get(k, IP()) == want.get(k, IP())))
-                ctx.oblige('(x / y) * y == x: the quotient is x * inverse(y) (inverse on the right), as a polynomial identity', not bad,
+                _ob(ctx, '(x / y) * y == x: the quotient is x * inverse(y) (inverse on the right), as a polynomial identity', not bad,
                            meta={'differing_blades': bad[:8]})
                 return r
             H.run_paths(fuc, f'div,d={d},signature={list(sig)}', body)
@@ -555,6 +560,6 @@ def vc_outerexp_generic(H, tier='quick'):
                     if bad:
                         failing.append((sn, bad[:4]))
                 which = {'outerexp': 'all k', 'outersin': 'odd k', 'outercos': 'even k'}[name]
-                ctx.oblige(f'codegen_{name} == sum over {which} <= d of x^(wedge k) / k! on generic operands of every single grade >= 1 (and all of them together)',
+                _ob(ctx, f'codegen_{name} == sum over {which} <= d of x^(wedge k) / k! on generic operands of every single grade >= 1 (and all of them together)',
                            not failing, meta={'failing_shapes': failing[:6]})
             H.run_paths(fuc, f'generic,d={d}', body)
